@@ -71,7 +71,9 @@ def field_order(ctx, rule):
     # order along the dominance chain
     calls_sorted = sorted(calls, key=lambda c: len(body.dominators_of(c[0])))
     getters = [a for _, a, _ in calls_sorted]
-    want = ["Token::%s(token)" % g for g in V3_ORDER]
+    FIELD = {"get_dst_col": "token.raw.dst_col", "get_src_id": "token.raw.src_id", "get_src_line": "token.raw.src_line", "get_name_id": "token.raw.name_id"}
+    want = [FIELD.get(g, "Token::%s(token)" % g) for g in V3_ORDER]
+    NAME_OF = {v: k for k, v in FIELD.items()}
     ctx.check(getters == want, rule, fn, "order", "the deltas are emitted in the v3 order dst_col, src_id, src_line, src_col, name_id", detail=str(getters))
     chain_ok = all(body.dominates(calls_sorted[i][0], calls_sorted[i + 1][0]) for i in range(len(calls_sorted) - 1))
     ctx.check(chain_ok, rule, fn, "order:chain", "each delta call dominates the next one (a straight-line sequence per token)")
@@ -84,7 +86,7 @@ def field_order(ctx, rule):
         pr[p] = "P"
         shapes = [(sh, site) for sh, site, _ in q.def_shapes(body, p, pr)]
         nonzero = [(sh, site) for sh, site in shapes if sh != "0"]
-        g = a.split("::")[1].split("(")[0]
+        g = NAME_OF.get(a) or a.split("::")[1].split("(")[0]
         ctx.check(bool(nonzero) and all(sh == a for sh, _ in nonzero), rule, fn, "prev:%s:updated-from-same-getter" % g,
                   "the variable the %s delta is taken against is updated from %s of the same token (delta against the previous *emitted* value)" % (g, g),
                   detail=str(shapes))
@@ -123,7 +125,7 @@ def resets(ctx, rule):
                 in_loop = body.reaches(head, site[0]) and body.reaches(site[0], head)
                 if in_loop:
                     reset.setdefault(a, []).append(site)
-    ctx.check(set(reset) == {"Token::get_dst_col(token)"}, rule, fn, "reset-set",
+    ctx.check(set(reset) == {"token.raw.dst_col"}, rule, fn, "reset-set",
               "inside the token loop exactly the generated-column state is reset (source, original line/column and name state run across lines)", detail=str(sorted(reset)))
     line_locals = _line_local(body, roles)
     if ctx.check(len(line_locals) == 1, rule, fn, "line-var", "the current generated line is tracked in one variable"):
@@ -131,7 +133,7 @@ def resets(ctx, rule):
         lr[line_locals[0]] = "L"
         for a, sites in reset.items():
             for site in sites:
-                ctx.check(has_fact(body, site[0], lr, ("Ne", "L", "Token::get_dst_line(token)"), ("Ne", "Token::get_dst_line(token)", "L")), rule, fn,
+                ctx.check(has_fact(body, site[0], lr, ("Ne", "L", "token.raw.dst_line"), ("Ne", "token.raw.dst_line", "L")), rule, fn,
                           "reset:on-line-change", "the column state is reset exactly when the token starts a new line", ctx.site(body, *site))
 
 
@@ -145,7 +147,7 @@ def _line_local(body, roles):
                 e = e.x
             if isinstance(e, Bin) and e.op in ("Ne", "Eq"):
                 for x, y in ((e.l, e.r), (e.r, e.l)):
-                    if q.shape(x, roles) == "Token::get_dst_line(token)":
+                    if q.shape(x, roles) == "token.raw.dst_line":
                         l = q.root_local(y)
                         if l is not None and l not in out:
                             out.append(l)
@@ -168,7 +170,7 @@ def separators(ctx, rule, fn_path=SM, push="String::push"):
     commas = [(bi, t) for bi, t in q.calls_to(body, push) if q.shape(q.arg_expr(body, t, 1)) == "44"]
     ctx.check(len(semis) == 1, rule, fn, "semicolon:one-site", "';' is pushed at exactly one place")
     for bi, t in semis:
-        ctx.check(has_fact(body, bi, lr, ("Ne", "L", "Token::get_dst_line(token)"), ("Ne", "Token::get_dst_line(token)", "L")), rule, fn, "semicolon:guard",
+        ctx.check(has_fact(body, bi, lr, ("Ne", "L", "token.raw.dst_line"), ("Ne", "token.raw.dst_line", "L")), rule, fn, "semicolon:guard",
                   "';' is pushed only while the line counter differs from the token's line", ctx.site(body, bi))
         adv = found.get("advance", [])
         ok = bool(adv) and all(body.dominates(bi, s[0]) for s in adv) and all(body.reaches(s[0], bi) for s in adv)
@@ -176,7 +178,7 @@ def separators(ctx, rule, fn_path=SM, push="String::push"):
     if fn_path == SM:
         ctx.check(len(commas) == 1, rule, fn, "comma:one-site", "',' is pushed at exactly one place")
         for bi, t in commas:
-            same_line = has_fact(body, bi, lr, ("Eq", "L", "Token::get_dst_line(token)"), ("Eq", "Token::get_dst_line(token)", "L"))
+            same_line = has_fact(body, bi, lr, ("Eq", "L", "token.raw.dst_line"), ("Eq", "token.raw.dst_line", "L"))
             not_first = has_fact(body, bi, lr, ("Lt", "0", "idx"), ("Ne", "0", "idx"))
             not_dup = has_fact(body, bi, lr, ("false", "PartialEq::eq(Option::Some{0:token},Option::as_ref(SourceMap::get_token(arg1,Sub(idx,1))))", None))
             ctx.check(same_line, rule, fn, "comma:same-line", "',' separates segments of the same line only", ctx.site(body, bi))
@@ -194,7 +196,7 @@ def only_duplicates_skipped(ctx, rule, fn_path=SM):
     entry = loop_entry(body, roles)
     # the emission point: first delta call (mappings) / the range-flag decision (range mappings)
     if fn_path == SM:
-        emit = [bi for bi, a, p in diff_calls(body, roles) if a == "Token::get_dst_col(token)"]
+        emit = [bi for bi, a, p in diff_calls(body, roles) if a == "token.raw.dst_col"]
     else:
         emit = [bi for bi, t in q.calls_to(body, "Token::is_range")]
     if not ctx.check(len(emit) == 1, rule, fn, "emit-point", "there is exactly one emission point per token"):
@@ -222,7 +224,7 @@ def only_duplicates_skipped(ctx, rule, fn_path=SM):
                 stack.append(s)
     ctx.check(not reach_head, rule, fn, "skip-only-dups", "an iteration ends without emitting only through the exact-duplicate test (no other skip path)")
     for d, tb in dup_edges:
-        same_line = has_fact(body, d, {**roles, **{l: "L" for l in _line_local(body, roles)}}, ("Eq", "L", "Token::get_dst_line(token)"), ("Eq", "Token::get_dst_line(token)", "L"))
+        same_line = has_fact(body, d, {**roles, **{l: "L" for l in _line_local(body, roles)}}, ("Eq", "L", "token.raw.dst_line"), ("Eq", "token.raw.dst_line", "L"))
         ctx.check(same_line, rule, fn, "dup:same-line", "the duplicate test is made only against a predecessor on the same line", ctx.site(body, d))
         ctx.check(has_fact(body, d, roles, ("Lt", "0", "idx")), rule, fn, "dup:idx>0", "... and only when a predecessor exists", ctx.site(body, d))
         ctx.check(not body.reaches(tb, emit[0], avoid=[head]) and tb != emit[0], rule, fn, "dup:skipped", "an exact duplicate is skipped: nothing is emitted for it in this iteration (both writers agree on what a segment is)", ctx.site(body, d))
@@ -308,7 +310,7 @@ def optional_keys(ctx, rule):
     copies = [c % "p1" for c in STRING_COPY]
     for f, wants in (("file", ["Option::map(SourceMap::get_file(arg1),%s(Value::String{0:%s}))" % (LAM, c) for c in copies]),
                      ("source_root", ["Option::map(SourceMap::get_source_root(arg1),%s(%s))" % (LAM, c) for c in copies] + ["Option::map(SourceMap::get_source_root(arg1),fn:%s)" % c.split("(")[0] for c in copies]),
-                     ("debug_id", ["SourceMap::get_debug_id(arg1)"]), ("sections", ["Option::None{}"]), ("x_facebook_sources", ["Option::None{}"]), ("_debug_id_new", ["Option::None{}"]),
+                     ("debug_id", ["arg1.debug_id"]), ("sections", ["Option::None{}"]), ("x_facebook_sources", ["Option::None{}"]), ("_debug_id_new", ["Option::None{}"]),
                      ("sources", ["Option::Some{0:Iterator::collect(Iterator::map(slice::iter(arg1.sources),%s(Option::Some{0:%s})))}" % (LAM, c) for c in copies]),
                      ("names", ["Option::Some{0:Iterator::collect(Iterator::map(SourceMap::names(arg1),%s(Value::String{0:%s})))}" % (LAM, c) for c in copies]),
                      ("mappings", ["Option::Some{0:encoder::serialize_mappings(arg1)}"]), ("range_mappings", ["encoder::serialize_range_mappings(arg1)"])):
@@ -447,7 +449,7 @@ def sections(ctx, rule):
         return
     a = agg[2]
     sh = q.shape(a.field("sections"))
-    ctx.check(q.wild("Option::Some{0:Iterator::collect(Iterator::map(SourceMapIndex::sections(arg1),closure:*))}", sh) or q.wild("Option::Some{0:Iterator::collect(Iterator::map(SourceMapIndex::sections(arg1),fn:*))}", sh), rule, body.path, "sections:all", "every section is written, in order", detail=sh)
+    ctx.check(q.wild("Option::Some{0:Iterator::collect(Iterator::map(SourceMapIndex::sections(arg1),closure:*))}", sh) or q.wild("Option::Some{0:Iterator::collect(Iterator::map(SourceMapIndex::sections(arg1),fn:*))}", sh) or q.wild("Option::Some{0:Iterator::collect(Iterator::map(SourceMapIndex::sections(arg1),\u03bb(RawSection{*})))}", sh), rule, body.path, "sections:all", "every section is written, in order", detail=sh)
     ctx.check(q.shape(a.field("file")).startswith("Option::map(SourceMapIndex::get_file(arg1)"), rule, body.path, "file", "the index file name is written")
     fsh = q.shape(a.field("file"))
     ctx.check(fsh in ["Option::map(SourceMapIndex::get_file(arg1),%s(Value::String{0:%s}))" % (LAM, c % "p1") for c in STRING_COPY], rule, body.path, "file:copy", "... unchanged", detail=fsh)
@@ -459,7 +461,7 @@ def sections(ctx, rule):
     if not ctx.check(len(secs) == 1, rule, cl.path, "RawSection", "one RawSection is built per section"):
         return
     s = secs[0]
-    ctx.check(q.shape(s.field("offset"), P) == "RawSectionOffset{line:SourceMapSection::get_offset_line(arg2),column:SourceMapSection::get_offset_col(arg2)}", rule, cl.path, "offset",
+    ctx.check(q.shape(s.field("offset"), P) == "RawSectionOffset{line:arg2.offset.0,column:arg2.offset.1}", rule, cl.path, "offset",
               "offset.line / offset.column carry the section's line / column offset (not swapped)", detail=q.shape(s.field("offset"), P))
     ush = q.shape(s.field("url"), P)
     ctx.check(ush in ["Option::map(SourceMapSection::get_url(arg2),fn:%s)" % c.split("(")[0] for c in STRING_COPY], rule, cl.path, "url", "the section url is written unchanged", detail=ush)
@@ -524,10 +526,10 @@ def range_writer(ctx, rule, parts=("R1", "R2", "R3")):
     if not ctx.check(len(sets) == 1, rule, fn, "bitset:one", "range flags are written at exactly one place"):
         return
     sb, st = sets[0]
-    ctx.check(has_fact(body, sb, roles, ("true", "Token::is_range(token)", None)), rule, fn, "bitset:is_range", "a bit is set exactly for range tokens", ctx.site(body, sb))
+    ctx.check(has_fact(body, sb, roles, ("true", "token.raw.is_range", None)), rule, fn, "bitset:is_range", "a bit is set exactly for range tokens", ctx.site(body, sb))
     ctx.check(q.shape(q.arg_expr(body, st, 2)) == "1", rule, fn, "bitset:true", "the bit is set to true")
     from rules.common import loop_passes
-    rng_sw = [d for d in range(len(body.blocks)) if body.blocks[d]["term"]["k"] == "switch" and q.shape(body.expr_of_operand(body.blocks[d]["term"]["discr"]), roles) == "Token::is_range(token)"]
+    rng_sw = [d for d in range(len(body.blocks)) if body.blocks[d]["term"]["k"] == "switch" and q.shape(body.expr_of_operand(body.blocks[d]["term"]["discr"]), roles) == "token.raw.is_range"]
     if ctx.check(len(rng_sw) == 1, rule, fn, "R1:is_range-test", "the range flag of the token is tested once"):
         yes = body.blocks[rng_sw[0]]["term"]["otherwise"]
         ctx.check(loop_passes(body, yes, loop_head(body), [sb]), rule, fn, "R1:every-range-token", "the bit is written for *every* range token (no further condition such as 'has a source')", ctx.site(body, sb))
@@ -551,7 +553,7 @@ def range_writer(ctx, rule, parts=("R1", "R2", "R3")):
     head = loop_head(body)
     # R1: the ordinal is reset when the line changes, before it is used for this token
     zs = [s for s in found.get("zero", []) if body.reaches(head, s[0]) and body.reaches(s[0], head)]
-    ok = bool(zs) and all(has_fact(body, s[0], lr, ("Ne", "L", "Token::get_dst_line(token)"), ("Ne", "Token::get_dst_line(token)", "L")) for s in zs)
+    ok = bool(zs) and all(has_fact(body, s[0], lr, ("Ne", "L", "token.raw.dst_line"), ("Ne", "token.raw.dst_line", "L")) for s in zs)
     ctx.check(ok, rule, fn, "R1:reset-on-line-change", "the per-line ordinal restarts when the token starts a new line")
     ctx.check(bool(zs) and all(body.reaches(s[0], sb) and not body.reaches(sb, s[0]) or _same_iter_before(body, head, s[0], sb) for s in zs), rule, fn, "R1:advance-before-use",
               "the line is advanced (and the ordinal restarted) before the token's flag is written in the same iteration")
@@ -563,7 +565,7 @@ def range_writer(ctx, rule, parts=("R1", "R2", "R3")):
         encl = sorted([set(bl) for h, bl in body.loops() if inc in bl], key=len)
         if len(encl) >= 2:
             tests = [q.shape(body.expr_of_operand(body.blocks[d]["term"]["discr"]), lr) for d in encl[0] if body.blocks[d]["term"]["k"] == "switch"]
-            inner_ok = any(q.same_test(x, "Ne(L,Token::get_dst_line(token))") or q.same_test(x, "Ne(Token::get_dst_line(token),L)") or q.same_test(x, "Lt(L,Token::get_dst_line(token))") for x in tests)
+            inner_ok = any(q.same_test(x, "Ne(L,token.raw.dst_line)") or q.same_test(x, "Ne(token.raw.dst_line,L)") or q.same_test(x, "Lt(L,token.raw.dst_line)") for x in tests)
     ctx.check(len(incs) == 1 and inner_ok, rule, fn, "R1:advance-loop", "the current line is advanced one by one in an inner loop until it reaches the token's line (one ';' per skipped line)")
     semis = [(bi, t) for bi, t in q.calls_to(body, "Vec::<T, A>::push") if q.shape(q.arg_expr(body, t, 1)) == "59"]
     ctx.check(len(semis) == 1 and _same_iter_before(body, head, semis[0][0], sb), rule, fn, "R1:semicolon-before-flag",
@@ -575,7 +577,7 @@ def range_writer(ctx, rule, parts=("R1", "R2", "R3")):
         cb = cnt[0][0]
         # every path from the emission point (is_range test) to the loop head passes the increment
         emit = [bi for bi, t in q.calls_to(body, "Token::is_range")]
-        ok = bool(emit) and _must_pass_to(body, emit[0], head, {cb}) and not has_fact(body, cb, lr, ("true", "Token::is_range(token)", None))
+        ok = bool(emit) and _must_pass_to(body, emit[0], head, {cb}) and not has_fact(body, cb, lr, ("true", "token.raw.is_range", None))
     ctx.check(ok, rule, fn, "R3:ordinal-counts-emitted", "the ordinal advances once for every emitted (non-duplicate) token, range or not")
     # R2: resize dominates set with new length derived from the bit index
     rs = q.calls_to(body, "Vec::<T, A>::resize")
